@@ -5,6 +5,8 @@ from __future__ import annotations
 from typing import TYPE_CHECKING, ClassVar, Generic, TypeVar, cast
 from warnings import warn
 
+import numpy as np
+
 from quansino.mc.canonical import Canonical
 from quansino.mc.contexts import ExchangeContext
 from quansino.mc.criteria import CanonicalCriteria, GrandCanonicalCriteria
@@ -204,6 +206,25 @@ class GrandCanonical(
             The exchange atoms.
         """
         self.context.exchange_atoms = value
+
+    def validate_simulation(self) -> None:
+        """
+        Validate the simulation, giving the atoms every per-atom array the exchange
+        atoms carry (filled like `Atoms.extend` would), so that the set of arrays does
+        not depend on whether an insertion was attempted, rejected or accepted.
+        """
+        for name, array in self.exchange_atoms.arrays.items():
+            if name not in self.atoms.arrays:
+                if name == "masses":
+                    new_array = self.atoms.get_masses()
+                else:
+                    new_array = np.zeros(
+                        (len(self.atoms), *array.shape[1:]), dtype=array.dtype
+                    )
+
+                self.atoms.set_array(name, new_array)
+
+        super().validate_simulation()
 
     def save_state(self) -> None:
         """Save the current state of the context and update move labels."""
